@@ -37,7 +37,13 @@ TRUSTED = [
 RULE = ('valid Interest / Data / LpPacket / certificate wires built by the library (all optional-field combinations, signed '
         'and unsigned, tokens, nacks) and Names; each is decoded as is and after one mutation: byte substitution, truncation, '
         'length-field edit (+-1, +-big), element duplicated / deleted / swapped / unknown critical or non-critical element '
-        'inserted at a random depth; plus uniformly random byte strings with a plausible outer header. The same wire goes to '
+        'inserted at a random depth, a Type / Length number re-written in a longer than shortest form, an element of Type 0, '
+        'a 9-byte (huge) Length, odd name components (zero-length, Type 0, Type above 65535, 3-byte Type) inserted into any '
+        'Name, a 5..400-deep nest or several kB of unknown element inserted, and 12% get a second edit; valid wires include '
+        'several-kB payloads and every LpPacket header field; plus grammar-generated packets (each recognised element of the '
+        'field list present with p=0.6 in order, legal and illegal integer widths, then one deviation: swap / repeat / unknown '
+        'element), uniformly random byte strings and random TLV-shaped sequences up to 2.5 kB. The strict reading of an '
+        'LpPacket uses the NDNLPv2 field table written into the harness, not the one in the source. The same wire goes to '
         'the real decoder, to the Lean decoder model, to an independent strict reader (Python) and to the Lean strict decoder; '
         'decoder model = code and Lean strict decoder = Python strict reader (accept / reject, fields, kind of overrun) are '
         'compared on every wire, including the wires flagged as known finding. non-trivial = the mutated wire is accepted '
@@ -102,20 +108,27 @@ def _valid_wire(rng, kind):
     from ndn.app_support import security_v2 as sv
     signer = rng.choice([None, None, DigestSha256Signer(), HmacSha256Signer('k', b'key12345')])
     name = _rand_name(rng)
+    big = rng.random() < 0.06       # wires of several kB
+
+    def blob():
+        if big:
+            blk = bytes(rng.getrandbits(8) for _ in range(32))
+            return blk * rng.choice([40, 70, 130, 260])
+        return T.random_bytes(rng)
     if kind == 'interest':
         ip = enc.InterestParam(can_be_prefix=rng.random() < 0.5, must_be_fresh=rng.random() < 0.5,
                                nonce=rng.choice([None, rng.getrandbits(32)]),
                                lifetime=rng.choice([None, 0, 4000, 70000, 2 ** 33]),
                                hop_limit=rng.choice([None, 0, 255]),
                                forwarding_hint=[_rand_name(rng) for _ in range(rng.choice([0, 0, 1, 2]))])
-        ap = rng.choice([None, None, b'', T.random_bytes(rng)])
+        ap = rng.choice([None, None, b'', blob()])
         if signer is not None and isinstance(signer, DigestSha256Signer):
             signer = DigestSha256Signer(for_interest=True)
         return bytes(enc.make_interest(name, ip, ap, signer=signer))
     if kind == 'data':
         mi = enc.MetaInfo(content_type=rng.choice([None, 0, 2, 300]), freshness_period=rng.choice([None, 0, 1000, 2 ** 40]),
                           final_block_id=rng.choice([None, T.random_comp(rng)]))
-        return bytes(enc.make_data(name, mi, rng.choice([None, b'', T.random_bytes(rng)]), signer=signer))
+        return bytes(enc.make_data(name, mi, rng.choice([None, b'', blob()]), signer=signer))
     if kind == 'lp':
         inner = _valid_wire(rng, rng.choice(['interest', 'data']))
         pkt = lp.LpPacket()
@@ -134,6 +147,21 @@ def _valid_wire(rng, kind):
             v.frag_count = 1
         if rng.random() < 0.2:
             v.non_discovery = True
+        if rng.random() < 0.15:
+            v.incoming_face_id = rng.choice([0, 255, 256, 2 ** 32, 2 ** 64 - 1])
+        if rng.random() < 0.15:
+            v.next_hop_face_id = rng.choice([0, 300, 70000])
+        if rng.random() < 0.15:
+            v.cache_policy = lp.CachePolicy()
+            v.cache_policy.cache_policy_type = rng.choice([None, 1, 1000])
+        if rng.random() < 0.15:
+            # (never both: see ACK_TXSEQ_NOTE)
+            if rng.random() < 0.5:
+                v.ack = T.random_bytes(rng)
+            else:
+                v.tx_sequence = bytes(rng.getrandbits(8) for _ in range(8))
+        if rng.random() < 0.1:
+            v.prefix_announcement = T.random_bytes(rng)
         if rng.random() < 0.85:
             v.fragment = inner
         return bytes(pkt.encode())
@@ -170,7 +198,8 @@ def _nodes(tree, acc, parent=None):
 
 def _mutate(rng, wire):
     kind = rng.choice(['none', 'subst', 'trunc', 'len', 'dup', 'del', 'swap', 'ins_crit', 'ins_noncrit', 'lenbig',
-                       'width', 'width'])
+                       'width', 'width', 'nonshort_t', 'nonshort_l', 'nonshort_l', 'type0', 'len9', 'comp_odd', 'comp_odd',
+                       'deep', 'bigunk'])
     if kind == 'none' or not wire:
         return wire, 'none'
     if kind == 'subst':
@@ -212,7 +241,67 @@ def _mutate(rng, wire):
         t = rng.choice([3, 9, 0x1f, 0xff, 0x301]) if kind == 'ins_crit' else rng.choice([0xf0, 0xfe, 0x300, 0x3e8])
         pl = bytes(rng.getrandbits(8) for _ in range(rng.choice([0, 1, 4])))
         return rebuild((off, ve), T.tl(t) + T.tl(len(pl)) + pl + el), kind
+    if kind in ('nonshort_t', 'nonshort_l'):
+        # the same element with its Type / Length number written in a longer form than necessary
+        t, st = S.read_num(wire, off, ve)
+        ln = ve - vs
+        if kind == 'nonshort_t':
+            return rebuild((off, ve), _long_num(rng, t) + wire[off + st:ve]), kind
+        return rebuild((off, ve), wire[off:off + st] + _long_num(rng, ln) + wire[vs:ve]), kind
+    if kind == 'type0':
+        pl = bytes(rng.getrandbits(8) for _ in range(rng.choice([0, 0, 1, 3])))
+        new = b'\x00' + T.tl(len(pl)) + pl
+        return rebuild((off, ve), (new + el) if rng.random() < 0.7 else (el + new)), kind
+    if kind == 'len9':
+        # a 9-byte Length: astronomically large, or just past / at the real size; enclosing lengths are kept
+        t, st = S.read_num(wire, off, ve)
+        big = rng.choice([2 ** 63, 2 ** 64 - 1, 2 ** 32, 2 ** 31, ve - vs + 1, 2 ** 63 - 1])
+        new = wire[off:off + st] + b'\xff' + big.to_bytes(8, 'big') + wire[vs:ve]
+        if rng.random() < 0.5:
+            return wire[:off] + new + wire[ve:], kind          # ancestors not adjusted
+        return rebuild((off, ve), new), kind
+    if kind == 'comp_odd':
+        # inside a Name: a zero-length component, a component of Type 0, of a Type above 65535, of a 3-byte Type
+        names = [m for m, _, _ in nodes if wire[m[0]] == 7]
+        if not names:
+            return wire, 'none'
+        m = rng.choice(names)
+        try:
+            comps = [(a, c) for _, a, _, c in _kids_flat(wire, m[1], m[2])]
+        except S.Reject:
+            return wire, 'none'
+        new = rng.choice([b'\x08\x00', b'\x00\x01a', b'\x00\x00', b'\xfe\x00\x01\x00\x00\x01b', b'\xfd\xff\xff\x01c',
+                          b'\xff\x00\x00\x00\x01\x00\x00\x00\x00\x00', b'\x20\x00', b'\x08\xfd\x00\x01d', b'\xfd\x00\x08\x01e'])
+        cut = rng.choice([m[1]] + [c for _, c in comps])
+        body = wire[m[1]:cut] + new + wire[cut:m[2]]
+        return _rebuild(wire, _tree(wire, 0, len(wire)), (m[0], m[2]), b'\x07' + T.tl(len(body)) + body), kind
+    if kind in ('deep', 'bigunk'):
+        if kind == 'deep':
+            x = b''
+            for _ in range(rng.choice([5, 30, 120, 400])):
+                x = T.tl(rng.choice([0xf0, 0xf0, 0xf1, 0x3e8])) + T.tl(len(x)) + x
+            new = x
+        else:
+            blk = bytes(rng.getrandbits(8) for _ in range(16))
+            pl = blk * rng.choice([20, 100, 300, 500])
+            new = T.tl(rng.choice([0xf0, 0xfe, 0x3e8])) + T.tl(len(pl)) + pl
+        return rebuild((off, ve), (new + el) if rng.random() < 0.5 else (el + new)), kind
     return wire, 'none'
+
+
+def _kids_flat(buf, start, end):
+    out, off = [], start
+    while off < end:
+        t, vs, ve = S.read_elem(buf, off, end)
+        out.append((t, off, vs, ve))
+        off = ve
+    return out
+
+
+def _long_num(rng, n):
+    forms = [w for w, cap in ((3, 2 ** 16), (5, 2 ** 32), (9, 2 ** 64)) if w > len(T.tl(n)) and n < cap]
+    w = rng.choice(forms)
+    return {3: b'\xfd', 5: b'\xfe', 9: b'\xff'}[w] + n.to_bytes(w - 1, 'big')
 
 
 def _rebuild(wire, tree, edit, new):
@@ -255,11 +344,98 @@ def _rebuild(wire, tree, edit, new):
     return enc_level(tree, 0, len(wire))
 
 
+# NDNLPv2 field table of LpPacket (Type numbers from the NDNLPv2 specification; header fields, Fragment last). The strict
+# reading of an LpPacket uses THIS table, not the one found in the source.
+# ACK_TXSEQ_NOTE: NDNLPv2 / ndn-cxx order header fields by increasing Type (Ack 0x344 before TxSequence 0x348); the
+# library declares tx_sequence before ack, so of a packet carrying both in increasing order it silently drops
+# TxSequence. Reported, not judged: the table keeps the library's order for these two and valid LpPackets are generated
+# with at most one of them.
+SPEC_LP = [('U', 0x52, None), ('U', 0x53, None), ('Y', 0x62, False), ('M', 0x320, False, [('U', 0x321, None)], None),
+           ('U', 0x32c, None), ('U', 0x330, None), ('M', 0x334, False, [('U', 0x335, None)], None), ('U', 0x340, None),
+           ('Y', 0x348, False), ('Y', 0x344, False), ('B', 0x34c), ('Y', 0x350, False), ('Y', 0x50, False)]
+
+ODD_COMPS = [b'\x08\x00', b'\x00\x01a', b'\xfe\x00\x01\x00\x00\x01b', b'\xfd\xff\xff\x01c', b'\x20\x00', b'\xfd\x00\x08\x01e']
+
+
+def _gram_elem(rng, s):
+    k = s[0]
+    if k == 'R':
+        return b''.join(_gram_elem(rng, s[1]) for _ in range(rng.choice([0, 1, 2, 3])))
+    if k == 'U':
+        legal = [s[2]] if s[2] is not None else [1, 1, 2, 4, 8]
+        w = rng.choice(legal) if rng.random() < 0.9 else rng.choice([0, 3, 5, 9, 1, 2, 4, 8])
+        return T.tl(s[1]) + T.tl(w) + bytes(rng.getrandbits(8) for _ in range(w))
+    if k == 'B':
+        pl = b'' if rng.random() < 0.93 else b'\x01'
+        return T.tl(s[1]) + T.tl(len(pl)) + pl
+    if k == 'Y':
+        pl = T.random_bytes(rng)
+        return T.tl(s[1]) + T.tl(len(pl)) + pl
+    if k == 'N':
+        comps = [T.random_comp(rng) if rng.random() < 0.9 else rng.choice(ODD_COMPS) for _ in range(rng.choice([0, 1, 2, 4]))]
+        body = b''.join(comps)
+        return T.tl(s[1]) + T.tl(len(body)) + body
+    if k == 'M':
+        body = _gram_fields(rng, s[3])
+        return T.tl(s[1]) + T.tl(len(body)) + body
+    return b''
+
+
+def _gram_fields(rng, fs):
+    """the recognised elements of a field list, each present with probability 0.6, in declared order - then possibly one
+    deviation: neighbours swapped, an element repeated, an unknown (critical / non-critical / Type 0) element inserted"""
+    items = [x for x in (_gram_elem(rng, s) for s in fs if s[0] != 'K' and rng.random() < 0.6) if x]
+    r = rng.random()
+    if r < 0.12 and len(items) >= 2:
+        i = rng.randrange(len(items) - 1)
+        items[i], items[i + 1] = items[i + 1], items[i]
+    elif r < 0.2 and items:
+        i = rng.randrange(len(items))
+        items.insert(rng.randint(i, len(items)), items[i])
+    elif r < 0.35:
+        t = rng.choice([0xf0, 0xfe, 0x3e8, 0x3e8, 0, 9, 0x1f, 0x301])
+        pl = bytes(rng.getrandbits(8) for _ in range(rng.choice([0, 1, 5])))
+        items.insert(rng.randint(0, len(items)), T.tl(t) + T.tl(len(pl)) + pl)
+    return b''.join(items)
+
+
+def _grammar_wire(rng, kind):
+    K = _kinds()[kind]
+    body = _gram_fields(rng, T.class_schema(K['cls']))
+    return T.tl(K['outer']) + T.tl(len(body)) + body
+
+
+def _random_wire(rng, kind):
+    """uniformly random bytes / a random sequence of TLV-shaped elements with the Types of this packet, up to ~2 kB"""
+    K = _kinds()[kind]
+    if rng.random() < 0.5:
+        body = bytes(rng.getrandbits(8) for _ in range(rng.choice([rng.randint(0, 40), rng.randint(0, 300), rng.randint(300, 2500)])))
+    else:
+        types = []
+
+        def walk(fs):
+            for s in fs:
+                if s[0] == 'K':
+                    continue
+                e = s[1] if s[0] == 'R' else s
+                types.append(e[1])
+                if e[0] == 'M':
+                    walk(e[3])
+        walk(T.class_schema(K['cls']))
+        body = b''
+        for _ in range(rng.choice([1, 3, 8, 30, 120])):
+            t = rng.choice(types) if rng.random() < 0.8 else rng.getrandbits(rng.choice([3, 8, 16]))
+            pl = bytes(rng.getrandbits(8) for _ in range(rng.choice([0, 1, 2, 4, 8, 20])))
+            ln = len(pl) if rng.random() < 0.9 else rng.getrandbits(8)
+            body += T.tl(t) + T.tl(ln) + pl
+    return T.tl(K['outer']) + T.tl(len(body)) + body
+
+
 def cases(rng, tier):
-    n = 500 if tier == 'quick' else 15000
+    n = 4000 if tier == 'quick' else 60000
     for _ in range(n):
         r = rng.random()
-        if r < 0.9:
+        if r < 0.72:
             kind = rng.choice(['interest', 'interest', 'data', 'data', 'lp', 'lp', 'cert'])
             try:
                 wire = _valid_wire(rng, kind)
@@ -267,17 +443,35 @@ def cases(rng, tier):
                 continue
             try:
                 wire, mut = _mutate(rng, wire)
+                if rng.random() < 0.12:
+                    wire, mut2 = _mutate(rng, wire)       # a second, independent edit
+                    mut = mut + '+' + mut2 if mut2 != 'none' else mut
             except Exception:     # noqa
                 mut = 'none'
             yield {'kind': kind, 'wire': wire.hex(), 'mut': mut}
-        elif r < 0.95:
+        elif r < 0.87:
+            kind = rng.choice(['interest', 'data', 'lp', 'lp', 'cert'])
+            wire, mut = _grammar_wire(rng, kind), 'grammar'
+            if rng.random() < 0.15:
+                try:
+                    wire, m2 = _mutate(rng, wire)
+                    mut = mut + '+' + m2 if m2 != 'none' else mut
+                except Exception:     # noqa
+                    pass
+            yield {'kind': kind, 'wire': wire.hex(), 'mut': mut}
+        elif r < 0.94:
             kind = rng.choice(['interest', 'data', 'lp', 'cert'])
-            body = bytes(rng.getrandbits(8) for _ in range(rng.randint(0, 40)))
-            outer = {'interest': 5, 'data': 6, 'lp': 100, 'cert': 6}[kind]
-            yield {'kind': kind, 'wire': (T.tl(outer) + T.tl(len(body)) + body).hex(), 'mut': 'random'}
+            yield {'kind': kind, 'wire': _random_wire(rng, kind).hex(), 'mut': 'random'}
         else:
             from ndn.encoding import Name
-            w = bytes(Name.to_bytes(_rand_name(rng)))
+            comps = _rand_name(rng)
+            if rng.random() < 0.3:
+                comps.insert(rng.randint(0, len(comps)), rng.choice(ODD_COMPS))
+            if rng.random() < 0.1:
+                n = rng.choice([252, 253, 300, 3000])
+                comps.append(T.tl(8) + T.tl(n) + bytes(rng.getrandbits(8) for _ in range(8)) * (n // 8 + 1))
+                comps[-1] = comps[-1][:len(T.tl(8) + T.tl(n)) + n]
+            w = bytes(Name.to_bytes(comps))
             w, mut = _mutate(rng, w)
             yield {'kind': 'name', 'wire': w.hex(), 'mut': mut}
 
@@ -326,9 +520,9 @@ def run_impl(case):
     try:
         # the strict reading takes WHICH sub-models may ignore unrecognised critical elements from the packet
         # specification, not from the source (only a Data's / certificate's SignatureInfo, for extensions)
-        fs_spec = _spec_flags(case['kind'], fs)
+        fs_spec = SPEC_LP if case['kind'] == 'lp' else _spec_flags(case['kind'], fs)
         vals = S.strict_packet(fs_spec, wire, K['outer'], K['ic'], K['need_name'])
-        for s, v in zip(fs, vals):
+        for s, v in zip(fs_spec, vals):
             if s[0] != 'K' and _typ(s) in K['forbid'] and v is not None:
                 raise S.Reject('fragmented envelope')
         out['strict'] = ['ok', T.values_text(vals)]
@@ -435,7 +629,7 @@ def nontrivial(case, impl):
 
 def tags(case, impl):
     d, s = impl['dec'], impl['strict']
-    return ['kind:' + case['kind'], 'mut:' + case['mut'], 'dec:' + (d[0] if d[0] == 'ok' else d[1]),
+    return ['kind:' + case['kind'], 'mut:' + case['mut'].split('+')[0], 'dec:' + (d[0] if d[0] == 'ok' else d[1]),
             'strict:' + (s[0] if s[0] == 'ok' else s[1][:30]), 'len:%d' % (len(case['wire']) // 200 * 100)]
 
 
